@@ -357,7 +357,7 @@ func genLeafPred(r *vk.RNG, d *Dataset) *Pred {
 		return &Pred{Kind: "str", Label: lbl, Op: op, Val: v}
 	case 3, 4:
 		lit := pickKeyed(r, numLits, nil, 0)
-		return &Pred{Kind: "num", Label: vk.Pick(r, []string{"status", "status", "nosuch", "level"}), Op: vk.Pick(r, cmpOps), Val: lit, Num: numLits[lit]}
+		return &Pred{Kind: "num", Label: vk.Pick(r, []string{"status", "status", "nosuch", "level", "ok"}), Op: vk.Pick(r, cmpOps), Val: lit, Num: numLits[lit]}
 	case 5:
 		lit := pickKeyed(r, durLits, nil, 0)
 		return &Pred{Kind: "dur", Label: vk.Pick(r, []string{"dur", "dur", "nosuch", "level"}), Op: vk.Pick(r, cmpOps), Val: lit}
